@@ -105,12 +105,17 @@ def harnesses(tier):
     ST.install_sqlite()
     hs = []
     sizes = [1, 2] if tier == "quick" else [1, 2, 3]
-    for bk in ["memory", "sqlite"]:
+    ST.install_peewee()
+    for bk in ["memory", "sqlite", "peewee"]:
         for n in sizes:
             for hs_, he_ in ((True, True), (True, False), (False, True), (False, False)):
                 if n == 3 and not (hs_ and he_):
                     continue
-                hs.append((Harness(PROP, "%s-n%d-%s%s" % (bk, n, "S" if hs_ else "-", "E" if he_ else "-"), h_window, dict(bk=bk, n=n, has_start=hs_, has_end=he_),
+                if bk == "peewee" and n >= 2 and hs_ and he_:
+                    continue  # the clipping obligations with both edges and 2+ events exceed z3's 120 s per query (one 'unknown'): not claimed
+                if bk == "peewee" and n >= 3:
+                    continue
+                hs.append((Harness(PROP, "%s-n%d-%s%s" % (bk, n, "S" if hs_ else "-", "E" if he_ else "-"), h_window, dict(bk=bk, n=n, has_start=hs_, has_end=he_, clips=(bk == "peewee")),
                                    "%s backend: windowed get / limited get / eventcount over %d stored events (window start %s, end %s)" % (bk, n, "given" if hs_ else "absent", "given" if he_ else "absent"), split_depth=7), 3600))
     return hs
 
@@ -125,7 +130,7 @@ def meta(chk, tier):
         "edge tolerance 2 ms: MUST = reaches >= 2 ms into the window, MAY = within 2 ms of it",
     ]
     chk.stubs = ["as C02; window rounding arithmetic (int(us/1000)) in exact integer arithmetic (its IEEE form is C13's ms-floor lemma)"]
-    chk.assumptions = ["events longer than 24 h are outside the property", "peewee (the clipping backend) not covered by this check yet"]
+    chk.assumptions = ["events longer than 24 h are outside the property", "peewee (the clipping backend): N=1 with every window shape, N=2 with at most one window edge; SQLite's julianday/strftime date math is a contract stub (rendered end instant within 1 ms of timestamp+duration, arbitrary inside that band)"]
 
 
 def main(tier, seed, args):
